@@ -349,3 +349,93 @@ func c06Subtree(r *R) {
 	}
 	_ = sort.Strings
 }
+
+// kills racing spawns on the one actor whose ActorOf is callable from any goroutine: the root (ActorSystem.ActorOf
+// racing ActorSystem.Stop, with older children that take a moment to stop so that the root stays in the killing state)
+func init() {
+	register(&Workload{Prop: "C06", Variant: "root-spawn-race", Horizon: 20 * time.Minute, MaxSteps: 200000, MaxG: 4096, Spin: 8000, PCTLen: 1200, Weight: 1, Body: c06RootSpawnRace})
+}
+
+func c06RootSpawnRace(r *R) {
+	w := newWorld(r, WorldOpt{})
+	if r.Failed() {
+		return
+	}
+	slow := func(ctx vivid.ActorContext, p *Probe) { vsimrt.Sleep(time.Duration(1+r.Choose(30)) * time.Millisecond) }
+	nOld := 1 + r.Choose(3)
+	for i := 0; i < nOld; i++ {
+		if _, err := w.Spawn(&Spec{Name: fmt.Sprintf("old%d", i), OnKill: slow, Children: []*Spec{{Name: "k", OnKill: slow}}}); err != nil {
+			r.Fail("C06/harness", "spawn: %v", err)
+			return
+		}
+	}
+	vsimrt.Settle()
+	nSpawners := 1 + r.Choose(3)
+	r.Sample(map[string]any{"old_children": nOld, "spawners": nSpawners})
+	var mu sync.Mutex
+	var spawned []string
+	var wg sync.WaitGroup
+	// simulated time is discrete: calls only interleave when they start at the same instant, so most spawners start
+	// exactly when Stop is called
+	stopAt := time.Duration(r.Choose(40)) * time.Millisecond
+	for g := 0; g < nSpawners; g++ {
+		g := g
+		delay := stopAt
+		if r.Chance(30) {
+			delay = time.Duration(r.Choose(40)) * time.Millisecond
+		}
+		wg.Add(1)
+		vsimrt.Go("c06.spawner", func() {
+			defer wg.Done()
+			if delay > 0 {
+				vsimrt.Sleep(delay)
+			}
+			for k := 0; k < 2; k++ {
+				name := fmt.Sprintf("late%d_%d", g, k)
+				if _, err := w.Spawn(&Spec{Name: name, Children: []*Spec{{Name: "k"}}}); err == nil {
+					mu.Lock()
+					spawned = append(spawned, "/"+name)
+					mu.Unlock()
+				}
+			}
+		})
+	}
+	if stopAt > 0 {
+		vsimrt.Sleep(stopAt)
+	}
+	r.Waiting("Stop")
+	err := w.Sys.Stop(5 * time.Second)
+	vsimrt.Yield()
+	r.Waiting("spawners")
+	wg.Wait()
+	vsimrt.Yield()
+	vsimrt.SettleFor(time.Second)
+	if err != nil {
+		r.Fail("C06/root-kill-did-not-complete", "Stop returned %v although no actor blocks for more than 30 ms: the root never saw all of its children terminate; live: %s", err, describeLive(r.Sim.Live()))
+		w.DumpNotes(300)
+		return
+	}
+	lives := Lives(w.Events())
+	mu.Lock()
+	defer mu.Unlock()
+	for _, p := range spawned {
+		for _, q := range []string{p, p + "/k"} {
+			ls := lives[q]
+			if len(ls) == 0 {
+				continue
+			}
+			dead := false
+			for _, e := range ls[len(ls)-1].Events {
+				if e.Kind == "OnKilled" && e.Ref == q {
+					dead = true
+				}
+			}
+			if len(ls[len(ls)-1].Events) > 0 && !dead {
+				r.Fail("C06/descendant-survived spawn-racing-root-kill", "%s was spawned (ActorOf returned no error) while the root was being killed and was never terminated; trace: %s", q, fmtEvents(ls[len(ls)-1].Events, 8))
+				w.DumpNotes(300)
+				return
+			}
+		}
+	}
+	r.CountN("spawns-racing-root-kill", len(spawned))
+}
